@@ -164,7 +164,7 @@ def r3(fx):
     genv = _utils_env(fx, it)
     fn = fx.fn('utils', 'matrix_iter_verbose.get_bit') if fx.forest.has_func('utils', 'matrix_iter_verbose.get_bit') else fx.fn('utils', 'matrix_iter_verbose')
     full = fx.tier == 'thorough'
-    sizes = list(iso.ALL_VERSIONS) if full else [-3, -2, -1, 0, 1, 2, 6, 7, 14, 40]
+    sizes = list(iso.ALL_VERSIONS)     # all 44 sizes in both tiers (the alignment centres are irregular: version 32)
     T = {t: (C(fx, f'TYPE_{t}_LIGHT'), C(fx, f'TYPE_{t}_DARK')) for t in TYPES}
     kind_type = {'finder': 'FINDER_PATTERN', 'timing': 'TIMING', 'alignment': 'ALIGNMENT_PATTERN', 'format': 'FORMAT',
                  'version': 'VERSION'}
